@@ -37,9 +37,9 @@ func Operate3[A any, B any, C any, R any](ac <-chan A, bc <-chan B, cc <-chan C,
 			rc <- o(an, bn, cn)
 		}
 
-		Drain(ac)
-		Drain(bc)
-		Drain(cc)
+		go Drain(ac)
+		go Drain(bc)
+		go Drain(cc)
 	}()
 
 	return rc
